@@ -23,3 +23,7 @@ chk('C11','exploration',
  'Twin-instance lockstep: every call through a MemFS.Sub view (also nested views, views of /) is replayed on a twin parent with the dir-prefixed path as the same user/umask; outcomes must be equal and the full snapshots of both parents equal after every call; per-view SetUser/SetUMask/Chdir are followed by isolation assertions on the parent and a sibling view; parent-side changes are mixed in for visibility.',
  'symlink-free paths as the property states; Getwd/EvalSymlinks/temp names not compared; a failed RemoveAll ends the history (documented partial effect, map-order dependent)',
  'twin-instance differential + isolation assertions','DESIGN.md §5 C11')
+chk('C12','fault_enumeration',
+ 'Per history: transparency under the always-OK function (results and base snapshot equal to a twin base; every direct primitive consults the callback with its own id), EVERY single-fault plan "fail the k-th consultation" (error returned - the injected value itself for a direct primitive - and base snapshot taken inside the callback at the injection moment equal to the one at return), "always fail primitive F" plans that also drive files and sub file systems handed out by the FailFS, and the ReadOnlyFunc plan under a base snapshot monitor incl. mtimes.',
+ 'single-fault and always-fail plans only (no multi-fault sequences); Glob is required not to report injected I/O errors (its contract)',
+ 'FailFS fault enumeration; the failure callback itself is the monitor','DESIGN.md §5 C12')
